@@ -684,6 +684,8 @@ class Interp:
                ast.FloorDiv: "//", ast.Mod: "%"}.get(type(op))
         if sym is None: return Opaque("operator " + type(op).__name__)
         if sym == "+" and isinstance(a, str) and isinstance(b, str): return a + b
+        if sym in ("+", "-") and ((isinstance(a, str) and isinstance(b, X)) or (isinstance(a, X) and isinstance(b, str))):
+            return Mismatch(f"TypeError: unsupported operand types for {sym}: text and number")
         if sym == "+" and isinstance(a, (tuple,)) and isinstance(b, (tuple,)): return a + b
         if sym == "-" and isinstance(a, tuple) and isinstance(b, tuple) and all(isinstance(e, str) for e in a + b):
             return tuple(e for e in a if e not in b)        # sets of names are modelled as tuples
